@@ -57,4 +57,10 @@ var metas = map[string]*meta{
 		Rule: "every sequence over a 32-op alphabet (SMTP delivery of a multipart message with attachment; REST list/get/source/PATCH-seen/DELETE/purge; web UI message/html/source/attach; every method of the bundled Go client incl. the header/message convenience methods; refs ∈ {1st id, 2nd id, latest, unknown}) to the full-tree depth, then explicit-state search on the store state; × mailbox name ∈ {plain, address form Plain+x@d.test, names containing ? # % & ' /} × backend × base path ∈ {'', /pre}; requests go through the real web.Router in-process, the Go client through a RoundTripper onto the same router. After every call: status (404 for every missing message, never a handler panic), body vs the model, and the store itself vs the effect the call should have had. Non-trivial = last op delivered or changed the store; distinct sequences.",
 		Assumptions: []string{"HTTP clients percent-encode path segments (url.PathEscape); the Go client encodes as it does", "handler panics are caught at Router.ServeHTTP (net/http would drop the connection)"},
 	},
+	"C02": {
+		ID: "C02", Level: "exploration",
+		Parts: []part{{Name: "all", Bin: "syn", Shards: 16}},
+		Rule: "message bodies = optional minimal header block + every sequence of ≤4 (quick) / ≤6 (thorough) tokens over {a, ., .., .a, CRLF, LF, CR, NUL, 0xFF 0xFE, space, LONG = one 70000-byte line (≤1 quick / ≤2 thorough per body)}, plus a size ladder {1, 4095, 4096, 4097, 65535, 65536, 65537, 1 MiB, 4 MiB} with and without final newline; mem and file. Each body is sent through a real SMTP session (dot-stuffing after CRLF and bare LF) and read back through Store.Source(), REST /source, web UI /source and POP3 RETR; each must be Return-Path + Received + the transmitted bytes modulo line-ending normalisation; sizes reported by Size(), REST list, POP3 STAT/LIST/RETR must equal the stored length. Non-trivial = the server stored the message; distinct bodies.",
+		Assumptions: []string{"a robust client dot-stuffs after bare LF as well (Go's DotWriter does); a body containing LF.LF sent by a CRLF-only encoder is SMTP smuggling and outside the statement", "runs of CR directly before LF are part of the line ending for comparison", "bodies the server refuses (451, undecodable header block) are counted, not alarmed on: the statement is about stored messages"},
+	},
 }
